@@ -375,6 +375,16 @@ pub fn run_c05(ctx: &Ctx) -> Report {
         }
         let m = AccountMeta { pubkey: Pubkey::new_from_array(rng.bytes(32).try_into().unwrap()), is_signer: s, is_writable: wr };
         let e = ExtraAccountMeta::from(&m);
+        {
+            let owner = Pubkey::new_from_array([9u8; 32]);
+            let (mut lam, mut data) = (1u64, vec![1u8, 2, 3]);
+            let info = AccountInfo::new(&m.pubkey, s, wr, &mut lam, &mut data[..], &owner, false);
+            let e2 = ExtraAccountMeta::from(&info);
+            let e3 = ExtraAccountMeta::from(m.clone());
+            if e2 != e || e3 != e || ExtraAccountMeta::from(info) != e {
+                rep.violate("ctor-meta", "From<AccountInfo> / From<AccountMeta> do not store key and flags", "{}".into());
+            }
+        }
         if AccountMeta::try_from(&e) != Ok(m.clone()) || e.discriminator != 0 {
             rep.violate("ctor-meta", "From<AccountMeta> does not round-trip key and flags", "{}".into());
         }
